@@ -2,6 +2,7 @@
 from __future__ import annotations
 
 import re
+import time
 
 from .. import gen as G
 from ..wire.h2raw import FrameBuilder, client_preface
@@ -26,7 +27,7 @@ ASSUMPTIONS = [
     "expected scope is rebuilt from the generator's structured request, not from any parser",
     "framing header fields are compared as the serialiser emitted them (lower-case)",
 ]
-MIN_DECISIVE = {"scope": 20, "body": 20, "terminal": 20, "instances": 20}
+MIN_DECISIVE = {"scope": 20, "body": 20, "terminal": 20, "instances": 20, "real-upload": 6}
 
 N_CASES = {"quick": 4000, "thorough": 60000}
 
@@ -222,7 +223,214 @@ def gen_cases(rng, tier):
             yield _case_h2(rng, tier, i)
 
 
+class _HashApp:
+    """A real ASGI application for the real-socket uploads: hashes what it is given instead of keeping it."""
+
+    def __init__(self, pause):
+        import hashlib
+
+        self.pause = pause
+        self.h = hashlib.sha256()
+        self.n = 0
+        self.msgs = 0
+        self.after_end = 0
+        self.ended = False
+        self.scope = None
+        self.polling = True
+
+    async def __call__(self, scope, receive, send, *a):
+        if scope["type"] == "lifespan":
+            while True:
+                m = await receive()
+                await send({"type": m["type"] + ".complete"})
+                if m["type"] == "lifespan.shutdown":
+                    return
+        self.scope = scope
+        import sniffio
+
+        lib = sniffio.current_async_library()
+        while True:
+            m = await receive()
+            if m["type"] != "http.request":
+                break
+            if self.ended:
+                self.after_end += 1
+            self.msgs += 1
+            self.h.update(m.get("body", b""))
+            self.n += len(m.get("body", b""))
+            if not m.get("more_body", False):
+                self.ended = True
+                break
+            if self.pause and self.msgs % 16 == 0:
+                if lib == "trio":
+                    import trio
+
+                    await trio.sleep(self.pause)
+                else:
+                    import asyncio
+
+                    await asyncio.sleep(self.pause)
+        body = self.h.hexdigest().encode()
+        await send({"type": "http.response.start", "status": 200, "headers": [(b"content-length", b"%d" % len(body))]})
+        await send({"type": "http.response.body", "body": body})
+
+
+def _real_upload(case, tally):
+    """Real serve() on loopback, a request body of tens of MiB.  Over HTTP/2 the client is the flow-control accountant itself (it sends DATA
+    only as far as the server's windows permit), so a server that does not hand back credit for what it has delivered stalls the upload -
+    a stall is decided on the absence of any progress for 5 s while the client has frames left, never on how long the upload takes."""
+    import hashlib
+    import random as _random
+    import socket as _socket
+
+    from ..wire.h2raw import FrameBuilder, H2Reactor, client_preface
+    from ..world.realnet import ServeHarness
+
+    findings = []
+    be, carrier, size, tag = case["backend"], case["carrier"], case["size"], case["tag"]
+    rnd = _random.Random(case["tag"])
+    payload = rnd.randbytes(1 << 16) * (size >> 16)
+    want = hashlib.sha256(payload).hexdigest().encode()
+    h = ServeHarness(be, {"keep_alive_timeout": 60.0, "graceful_timeout": 0.5}, {"default": [["recv_until_end"], ["respond", 200, [], b"d"]]})
+    app = h.apps = _HashApp(case["pause"])
+    sock = None
+    reply = b""
+    stalled = False
+    try:
+        h.start()
+        h.wait_ready()
+        sock = h.connect()
+        if sock is None:
+            tally.inconclusive["no-connection-established"] += 1
+            return findings, [None]
+        sock.settimeout(5.0)
+        if carrier in ("h1-cl", "h1-chunked"):
+            if carrier == "h1-cl":
+                head = b"POST /t%d HTTP/1.1\r\nHost: h\r\nContent-Length: %d\r\n\r\n" % (tag, len(payload))
+                wire = head + payload
+            else:
+                parts = [b"POST /t%d HTTP/1.1\r\nHost: h\r\nTransfer-Encoding: chunked\r\n\r\n" % tag]
+                off = 0
+                while off < len(payload):
+                    n = rnd.choice([1, 100, 4096, 65536, 200000])
+                    c = payload[off:off + n]
+                    parts.append(b"%x\r\n" % len(c) + c + b"\r\n")
+                    off += len(c)
+                parts.append(b"0\r\n\r\n")
+                wire = b"".join(parts)
+            off = 0
+            sock.settimeout(None)
+            last_n, since = -1, time.monotonic()
+            sock.setblocking(False)
+            import select
+
+            while off < len(wire):
+                _, w, _ = select.select([], [sock], [], 0.5)
+                if w:
+                    try:
+                        off += sock.send(wire[off:off + rnd.choice([1000, 65536, 1 << 20])])
+                    except BlockingIOError:
+                        pass
+                    except OSError:
+                        break
+                if app.n != last_n:
+                    last_n, since = app.n, time.monotonic()
+                elif time.monotonic() - since > 8.0:
+                    stalled = True
+                    break
+            sock.setblocking(True)
+            sock.settimeout(10.0)
+            if not stalled:
+                try:
+                    while b"\r\n\r\n" not in reply or len(reply.split(b"\r\n\r\n", 1)[1]) < 64:
+                        x = sock.recv(65536)
+                        if not x:
+                            break
+                        reply += x
+                except OSError:
+                    pass
+        else:
+            fb = FrameBuilder()
+            frames = []
+            off = 0
+            while off < len(payload):
+                n = rnd.choice([1, 1000, 16384, 16384])
+                c = payload[off:off + n]
+                off += len(c)
+                frames.append([fb.data(1, c, end_stream=off >= len(payload)), len(c)])
+            rx = H2Reactor({"kind": "h2", "credit": "auto", "uploads": {1: frames}}, None)
+            rx.fb = fb
+            sock.sendall(client_preface(fb, {}) + fb.headers(1, [(b":method", b"POST"), (b":scheme", b"http"), (b":path", b"/t%d" % tag), (b":authority", b"h")],
+                                                             end_stream=False))
+            last_n, since = -1, time.monotonic()
+            sock.settimeout(0.2)
+            while True:
+                for st in rx.pump():
+                    sock.sendall(st[1])
+                s1 = rx.streams.get(1)
+                if s1 is not None and (s1.ended or s1.rst is not None):
+                    break
+                try:
+                    data = sock.recv(65536)
+                    if not data:
+                        break
+                    for st in rx.react(data, 0.0):
+                        sock.sendall(st[1])
+                except _socket.timeout:
+                    pass
+                except OSError:
+                    break
+                if app.n != last_n:
+                    last_n, since = app.n, time.monotonic()
+                elif time.monotonic() - since > 8.0:
+                    stalled = True
+                    break
+            s1 = rx.streams.get(1)
+            reply = b"\r\n\r\n" + (bytes(s1.data) if s1 is not None else b"")
+            tally.events["real.h2-upload-blocked-on-window"] += rx.upload_blocked
+    finally:
+        if sock is not None:
+            try:
+                sock.close()
+            except OSError:
+                pass
+        h.trigger_shutdown()
+        h.wait_done(5.0)
+        h.close()
+    tally.events["real.body-messages"] += app.msgs
+    tally.clause("real-upload")
+    got = reply.split(b"\r\n\r\n", 1)[1][:64] if b"\r\n\r\n" in reply else b""
+    if stalled:
+        findings.append({"clause": "body", "sig": "C01.real/upload-stalled/%s" % carrier, "backend": be,
+                         "detail": "the upload stopped: the application had been given %d of %d bytes and nothing moved for 8 s while the client still had data "
+                                   "to send (HTTP/2: it sends only as far as the server's windows permit)" % (app.n, len(payload))})
+    elif app.n != len(payload) or got != want:
+        findings.append({"clause": "body", "sig": "C01.real/body-mismatch/%s" % carrier, "backend": be,
+                         "detail": "sent %d bytes sha256 %s; the application received %d bytes in %d messages, sha256 %r (ended=%r)" % (
+                             len(payload), want[:16], app.n, app.msgs, got[:16], app.ended)})
+    if app.after_end:
+        findings.append({"clause": "terminal", "sig": "C01.real/message-after-end/%s" % carrier, "backend": be, "detail": "%d messages after more_body=False" % app.after_end})
+    return findings, [None]
+
+
+def run_one(case, tally):
+    if case.get("tierb"):
+        return _real_upload(case, tally)
+    import sys
+
+    from ..runner import default_run_one
+
+    return default_run_one(sys.modules[__name__], case, tally)
+
+
 def gen(rng, tier):
+    # the same property against the real transports and the kernel's buffers: bodies far larger than any buffer on the way
+    for rep in range(1 if tier == "quick" else 4):
+        for be in ("asyncio", "trio"):
+            for carrier in ("h1-cl", "h1-chunked", "h2"):
+                for pause in (0, 0.002):
+                    yield {"family": "real-upload.%s.%s" % (carrier, "slow-app" if pause else "fast-app"), "tierb": True, "backend": be, "carrier": carrier,
+                           "size": (24 if carrier != "h2" else 12) << 20, "pause": pause, "tag": 880000 + rng.randrange(10000), "rep": rep}
     # "every relative timing between reads and application progress": for a share of the cases the pieces of a segmented write do not
     # wait for the server to come to rest but arrive a few scheduler turns apart, in the middle of whatever it is doing
     for case in gen_cases(rng, tier):
@@ -234,6 +442,8 @@ def gen(rng, tier):
 
 
 def nontrivial(case, obs):
+    if obs is None:
+        return True
     return obs.trace is not None and len(obs.instances()) > 0
 
 
